@@ -6,7 +6,8 @@ mkdir -p /tmp/ev
 git -C /repo worktree add -q --detach $wt HEAD || exit 3
 cp /repo/src/bluesky/_version.py $wt/src/bluesky/_version.py
 trap 'git -C /repo worktree remove --force '$wt'; rm -rf /tmp/ev/evid_'$$ EXIT INT TERM
-git -C $wt apply "$patch" || { echo "patch does not apply"; exit 3; }
+git -C $wt apply "$patch" 2>/dev/null || git -C $wt apply --3way "$patch" >/dev/null 2>&1 || { echo "patch does not apply (even 3-way)"; exit 3; }
+if git -C $wt diff --name-only --diff-filter=U | grep -q .; then echo "3-way conflict"; exit 3; fi
 cd /verif
 for c in "$@"; do
   out=$(VERIF_REPO=$wt VERIF_EVIDENCE_DIR=/tmp/ev/evid_$$ ./check "$c" --tier "$tier" 2>&1); rc=$?
